@@ -3,15 +3,17 @@ SPECIFICATION Spec
 CONSTANTS
   Regs = {"r1", "r2"}
   Srcs = {"detector", "api"}
-  RFams = {"v4", "v6"}
+  RFams = {"v6"}
   Gens = {"g1"}
   TTs = {"min"}
   LVs = {"l1"}
   Variant = "as_found"
   Broken = "none"
-  MaxPrints = 2
-  MaxFree = 1
+  MapWindow = TRUE
+  MaxPrints = 1
+  MaxFree = 0
 VIEW view
-INVARIANTS TypeOK ActiveExact TotalsExact Breakdowns NoDoubleCount MapLedger
+CONSTRAINT Canon
+INVARIANTS TypeOK ActiveExact TotalsExact Breakdowns NoDoubleCount
 PROPERTIES PrintKeepsGauges
 CHECK_DEADLOCK FALSE
